@@ -208,13 +208,20 @@ def Expr.isRep : Expr → Bool
   | .rep _ _ => true
   | _ => false
 
+/-- a backslash is a grapheme of its own (what `GraphemeCluster::from` guarantees) -/
+def BsOK (s : Str) : Prop := s = [92] ∨ 92 ∉ s
+
+/-- every grapheme of the cluster is `Grapheme::from(s)` for a non-empty `s` in which a backslash only occurs alone -/
+def PlainBs (c : Cluster) : Prop := ∀ g ∈ c, ∃ s, s ≠ [] ∧ BsOK s ∧ g = Grapheme.ofStr s
+
 mutual
-/-- shapes the elimination produces: non-empty flat alternations, non-empty scalar classes, only `?`, never on a `?` -/
+/-- shapes the elimination produces: non-empty flat alternations, non-empty ascending scalar classes, plain
+literals, only `?`, never directly on a `?` -/
 def Expr.WF : Expr → Prop
   | .alt os => os ≠ [] ∧ Expr.WFL os
-  | .cls cs => cs ≠ [] ∧ ∀ c ∈ cs, Scalar c
+  | .cls cs => cs ≠ [] ∧ (∀ c ∈ cs, Scalar c) ∧ cs.Pairwise (· < ·)
   | .cat a b => Expr.WF a ∧ Expr.WF b
-  | .lit _ => True
+  | .lit c => PlainBs c
   | .rep e q => q = .question ∧ e.isRep = false ∧ Expr.WF e
 def Expr.WFL : List Expr → Prop
   | [] => True
@@ -371,9 +378,9 @@ theorem Expr.both_den (cap : Bool) : ∀ (e : Expr), e.WF → ∀ s, (∀ c ∈ 
       constructor
       · rintro ⟨u, v, rfl, ⟨x, rfl, hx⟩, rfl⟩
         have hxs : Scalar x := hs x (by simp)
-        exact ⟨x, (classItems_match cs h.1 h.2 x hxs).mp hx, by simp⟩
+        exact ⟨x, (classItems_match cs h.1 h.2.1 x hxs).mp hx, by simp⟩
       · rintro ⟨c, hc, rfl⟩
-        exact ⟨[c], [], rfl, ⟨c, rfl, (classItems_match cs h.1 h.2 c (h.2 c hc)).mpr hc⟩, rfl⟩
+        exact ⟨[c], [], rfl, ⟨c, rfl, (classItems_match cs h.1 h.2.1 c (h.2.1 c hc)).mpr hc⟩, rfl⟩
     simp only [Expr.both, den_catList]
     exact ⟨fun _ => key, key⟩
   | .cat a b, h, s, hs => by
